@@ -218,3 +218,8 @@ BOUNDS = {
 }
 OUTSIDE = ["faults of type StopIteration/StopAsyncIteration (generator semantics turn them into RuntimeError in both worlds differently)", "more than one fault", "lengths above the bound"]
 NONTRIVIAL_RULE = "the injected fault was actually delivered on the path"
+
+MANIFEST = {
+    "text": 'Fault enumeration: one fault object (7 kinds) at a symbolic position of the merged use sequence (for consuming aggregations also at the k-th use of one entity) in both worlds; items before the failure, identity of the exception reaching the consumer and absence of any later use are compared; groupby under operation patterns included. Nothing is claimed outside the bounds listed in the evidence file.',
+    "note": 'Trusted: CrossHair 0.0.110 (with short-circuiting off and a refined callable() model), z3 5.1.0, the harness oracles. For consuming aggregations the order of uses is not compared (not claimed by the property).',
+}
